@@ -18,8 +18,8 @@ type builderCase struct {
 }
 
 func genBuilder(r *Rng) builderCase {
-	u8 := func() uint8 { return uint8(r.Intn(256)) }
-	u16 := func() uint16 { return uint16(r.Intn(65536)) }
+	u8 := func() uint8 { return r.U8e() }
+	u16 := func() uint16 { return r.U16e() }
 	data := func(max int) []byte {
 		if r.Chance(1, 30) {
 			return r.Bytes(r.Pick([]int{65531, 65535, 65536, 70000}))
@@ -327,7 +327,7 @@ func runC19(c *Ctx) error {
 				cont.BuildTransform(1, 12, nil, nil, nil)
 				prior.Add(L(A("tr"), Nn(1), Nn(12), Nn(0), Nn(0), Nn(0), Nn(0), Hx(nil)))
 			}
-			ty, id := uint8(rng.Intn(256)), uint16(rng.Intn(65536))
+			ty, id := rng.U8e(), rng.U16e()
 			var at, av *uint16
 			var vari []byte
 			sat, sav := "none", "none"
@@ -336,11 +336,11 @@ func runC19(c *Ctx) error {
 			case 0:
 				want.Add(L(A("tr"), Nn(uint64(ty)), Nn(uint64(id)), Nn(0), Nn(0), Nn(0), Nn(0), Hx(nil)))
 			case 1:
-				a, v := uint16(rng.Intn(65536)), uint16(rng.Intn(65536))
+				a, v := rng.U16e(), rng.U16e()
 				at, av, sat, sav = &a, &v, fmt.Sprint(a), fmt.Sprint(v)
 				want.Add(L(A("tr"), Nn(uint64(ty)), Nn(uint64(id)), Nn(1), Nn(1), Nn(uint64(a)), Nn(uint64(v)), Hx(nil)))
 			default:
-				a := uint16(rng.Intn(65536))
+				a := rng.U16e()
 				at, sat = &a, fmt.Sprint(a)
 				vari = genBytes(rng, 1, 300)
 				want.Add(L(A("tr"), Nn(uint64(ty)), Nn(uint64(id)), Nn(1), Nn(0), Nn(uint64(a)), Nn(0), Hx(vari)))
